@@ -97,7 +97,7 @@ PROPS = {
                 "so that collision chains, wrap-around, removal inside chains and growth across the 70% threshold occur. Non-trivial = "
                 "history with at least 4 operations; distinct = distinct history.",
         "trusted_base": ["elements are abstracted to (identity, reported hash): lp_polynomial_eq/lp_polynomial_hash themselves belong to C18"],
-        "assumptions": [],
+        "assumptions": ["table theorems (C20_hset_refines ...): elements with equal keys (equal polynomials) carry equal hashes"],
     },
     "C01": {
         "level": "proof",
